@@ -47,7 +47,7 @@ namespace cnl {
                 CNL_IMPL_CONSTANT_VALUE_TYPE InputValue = 0>
         [[nodiscard]] constexpr auto make_static_integer(constant<InputValue>)
         {
-            return static_integer<used_digits(InputValue), RoundingTag, OverflowTag, Narrowest>{InputValue};
+            return static_integer<digits_v<constant<InputValue>>, RoundingTag, OverflowTag, Narrowest>{InputValue};
         }
     }
 }
